@@ -168,6 +168,7 @@ func (s *supervisor) processDied(r *processorRequestDied) {
 	// Simple case: it was marked as Done and quit with no error.
 	if n.state == nodeStateDone && r.err == nil {
 		// Do nothing. This was supposed to happen. Keep the process as DONE.
+		n.exited = true
 		return
 	}
 
@@ -308,7 +309,9 @@ func (s *supervisor) processGC() {
 		curReady := false
 		switch cur.state {
 		case nodeStateDone:
-			curReady = true
+			// DONE is signaled by the runnable itself before it returns: restarting the subtree while its
+			// goroutine is still running would run it twice, and its late exit report would hit a reset tree.
+			curReady = cur.exited
 		case nodeStateCanceled:
 			curReady = true
 		case nodeStateDead:
